@@ -538,3 +538,53 @@ def mon_c05(case_line, acts):
             if ids(st, 'ret') != ids(prev, 'ret') or ids(st, 'rel') != ids(prev, 'rel') or st.get('gen') != (prev or {}).get('gen'):
                 out.append(V('resumed session at action #%d changed the in-flight lists or the generation' % i))
     return out
+
+
+def mon_panic(case_line, acts):
+    """the client never panics (the harness catches panics and ends the trace with the PANIC marker)"""
+    out = []
+    for i, a in enumerate(acts):
+        if a.result == 'PANIC':
+            out.append(V('the client panicked during action #%d' % i))
+    return out
+
+
+def mon_c08(case_line, acts):
+    """an inbound packet that the client rejects as invalid kills the handle and is not acted upon: no
+    acknowledgement is queued for it and the in-flight lists are as before (modulo the replay rewind)"""
+    out = []
+    for i, a in enumerate(acts):
+        if a.result == 'err InvalidPacket' and a.code in (5, 6, 7) and i > 0:
+            st, prev = a.state or {}, acts[i - 1].state or {}
+            if st.get('live') != '0':
+                out.append(V('InvalidPacket at action #%d did not kill the handle' % i))
+            ids = lambda s, k: [x.split(':')[0] for x in list_field(s.get(k, '[]'))]
+            for k in ('ret', 'rel'):
+                if ids(st, k) != ids(prev, k) and not any(e[0] == 'r' and e[2] for e in a.events[:-1]):
+                    out.append(V('InvalidPacket at action #%d changed %s' % (i, k)))
+    return out
+
+
+def mon_c09(case_line, acts):
+    """every complete packet the client writes parses under the independent MQTT 5 parser; CONNECT carries the
+    configured client id (until the broker assigns one), Receive Maximum 8 and the receive-buffer size"""
+    out = []
+    cfg = case_cfg(case_line)
+    for c in connections(acts):
+        pk, tail, problems = mqttspec.parse_client_stream(c['wire'], strict_flags=False)
+        if pk and pk[0]['type'] == 'CONNECT':
+            props = dict(pk[0].get('props', []))
+            if props.get(0x21) != 8:
+                out.append(V('CONNECT Receive Maximum is %s, expected 8' % props.get(0x21)))
+            if cfg['rx'] > 0 and props.get(0x27) != cfg['rx']:
+                out.append(V('CONNECT Maximum Packet Size is %s, receive buffer is %d' % (props.get(0x27), cfg['rx'])))
+        for p in pk:
+            if p['type'] == 'MALFORMED':
+                e = p['error']
+                if any(x in e for x in ('empty topic', 'U+0000', 'without topic filter', 'appears twice', 'packet identifier 0',
+                                        'is not allowed in', 'flag property', 'Topic Alias 0', 'Subscription Identifier')):
+                    continue   # invalid user input / C19 territory / broker identifier 0
+                if 'flags' in e:
+                    continue   # K01a (C01)
+                out.append(V('a packet the client wrote does not parse: %s (%s)' % (e, p['raw'].hex()[:80])))
+    return out
